@@ -144,11 +144,23 @@ def write_workbook(path, sheets, options=None):
         book_options["date_1904"] = True
     names = options.get("names") or []
     workbook = xlsxwriter.Workbook(path, book_options)
+    pending_activation = []
     try:
         formats = _Formats(workbook)
         for index, rows in enumerate(sheets):
             name = names[index] if index < len(names) and names[index] else None
             worksheet = workbook.add_worksheet(name)
+            visibility = (options.get("visibility") or {}).get(str(index))
+            if visibility:
+                # a sheet the user does not see is still a sheet of the workbook (and keeps its number); Excel wants
+                # one visible sheet to be the active one
+                others = [i for i in range(len(sheets)) if not (options.get("visibility") or {}).get(str(i))]
+                if others:
+                    pending_activation.append(others[0])
+                    if visibility == "veryHidden":
+                        worksheet.very_hidden()
+                    else:
+                        worksheet.hide()
             height, width = bounding_box(rows)
             for y, row in enumerate(rows[:height]):
                 for x, cell in enumerate(row[:width]):
@@ -178,6 +190,8 @@ def write_workbook(path, sheets, options=None):
                         status = worksheet.write_blank(y, x, None, formats.get(num_format))
                     if status not in (0, None):
                         raise ValueError("XlsxWriter refused cell %r at (%d, %d): status %r" % (cell, y, x, status))
+        if pending_activation:
+            workbook.worksheets()[pending_activation[0]].activate()
     finally:
         workbook.close()
 
